@@ -57,13 +57,13 @@ def genv(n=0):
     return common.clean_env({"GIT_AUTHOR_DATE": d, "GIT_COMMITTER_DATE": d})
 
 
-def git(cwd, *args, check=True, n=0):
+def git(cwd, *args, check=True, n=0, raw=False):
     p = subprocess.run(["git", "-c", "protocol.file.allow=always", "-c", "init.defaultBranch=master",
                         "-c", "advice.detachedHead=false", "-c", "gc.auto=0"] + list(args),
                        cwd=cwd, env=genv(n), stdout=subprocess.PIPE, stderr=subprocess.STDOUT, text=True, errors="replace")
     if check and p.returncode != 0:
         raise RuntimeError("git %s failed in %s:\n%s" % (" ".join(args), cwd, p.stdout))
-    return p.returncode, p.stdout.strip()
+    return p.returncode, (p.stdout if raw else p.stdout.strip())
 
 
 # ---------------------------------------------------------------------------------------------
@@ -99,7 +99,6 @@ class Universe:
         self.seed = os.path.join(root, "seed")
         shutil.copytree(os.path.join(tmpl, "seed"), self.seed, symlinks=True)
         self.clock = 1_600_000_000
-        self.ntag = 0
         for u in ("U1", "U2"):
             git(root, "init", "-q", "--bare", self.url(u))
             self.set_up(u, {"br": {"master": "c0", "dev": "c0"}, "tag": "c0"})
@@ -116,8 +115,8 @@ class Universe:
     def set_up(self, u, st):
         refs = ["+%s:refs/heads/%s" % (self.ids[c], b) for b, c in sorted(st["br"].items())]
         if self.annotated:
-            self.ntag += 1
-            git(self.seed, "tag", "-f", "-a", "-m", "T", "T", self.ids[st["tag"]], n=100 + self.ntag)
+            # one tag object per target commit: mirrors carry identical annotated tags
+            git(self.seed, "tag", "-f", "-a", "-m", "T", "T", self.ids[st["tag"]], n=100 + int(st["tag"][1:]))
             refs.append("+refs/tags/T:refs/tags/T")
         else:
             refs.append("+%s:refs/tags/T" % self.ids[st["tag"]])
@@ -434,8 +433,8 @@ class Replay:
         if repo is not None:
             o["dir"] = os.path.relpath(repo, self.ws())
             o["head"], o["commit"] = head_of(repo, self.U.names)
-            rcs, st = git(repo, "status", "--porcelain", check=False)
-            lines = [x for x in st.splitlines()]
+            rcs, st = git(repo, "status", "--porcelain", check=False, raw=True)
+            lines = [x for x in st.splitlines() if len(x) > 3]
             o["dF"] = any(x[3:] == "f.txt" and x[:2] != "??" for x in lines)
             o["dG"] = any(x[3:] == "g.txt" and x[:2] != "??" for x in lines)
             untr = []
@@ -766,7 +765,7 @@ def main():
         rep.extra.setdefault("weakened_model_counterexamples", {})[w] = {"found": len(r.printed), "replayed": len(sel)}
         behaviours += [(h, "cex:" + w) for h in sel]
     if a.only in (None, "simulate"):
-        num = 400 if quick else 4000
+        num = 1500 if quick else 6000
         g = tlc.run("GitCheckout", "GitCheckout_gen.cfg", workers=1, simulate="num=%d" % num, depth=12, seed=a.seed + 1,
                     timeout=1800, deadlock=False)
         sel = select(g.printed, 70 if quick else 800, rng,
@@ -781,6 +780,15 @@ def main():
                 cov[k] = cov.get(k, 0) + 1
         rep.extra["action_coverage"] = cov
         missing = [k for k in ACTIONS if not cov.get(k)]
+        if missing:
+            # rare actions (addA needs a preceding removeA): look again in a larger sample before calling it vacuous
+            g2 = tlc.run("GitCheckout", "GitCheckout_gen.cfg", workers=1, simulate="num=%d" % (4 * num), depth=12, seed=a.seed + 1001,
+                         timeout=3600, deadlock=False)
+            for h in g2.printed:
+                for x in h:
+                    k = "Edit:" + x["what"] if x["a"] == "Edit" else x["a"]
+                    cov[k] = cov.get(k, 0) + 1
+            missing = [k for k in ACTIONS if not cov.get(k)]
         if missing:
             raise tlc.TlcError("vacuity: actions never taken in %d simulated histories: %s" % (len(g.printed), missing))
     if a.only is not None:
